@@ -293,6 +293,14 @@ class Explorer:
                              f"`{p}` reduces over an accumulator", wit)
                 return ACC
             if span_multi:
+                allowed = getattr(self.spec, "span_ok", {}).get(p.name)
+                kset = set()
+                for e in non_acc:
+                    for (w_, t_, v_) in e.summ.words:
+                        kset.add(t_.kind)
+                if allowed is not None and kset <= allowed:
+                    span_multi = False
+            if span_multi:
                 kinds = sorted({e.summ.first_kind for e in non_acc})
                 self.add("O-segment", f"{self.spec.name}: `{p}` spans segments {kinds}",
                          f"the non-accumulator `{p.name}` (by {p.func}) covers words of more than one segment instance "
